@@ -355,6 +355,11 @@ restart:
         }
         else if (rc != Z_OK) {
             htp_log(d->tx->connp, HTP_LOG_MARK, HTP_LOG_WARNING, 0, "GZip decompressor: inflate failed with %d", rc);
+#ifdef LIBHTP_VERIF
+            /* a = compressed bytes of EARLIER chunks already consumed by the failed attempt */
+            htp_verif_site(HTP_VERIF_SITE_DECOMP_RESTART, d->tx->connp,
+                    (long) drec->stream.total_in - (long) (d->len - drec->stream.avail_in), (long) drec->restart);
+#endif
             if (drec->zlib_initialized == HTP_COMPRESSION_LZMA) {
                 LzmaDec_Free(&drec->state, &lzma_Alloc);
                 // so as to clean zlib ressources after restart
